@@ -222,13 +222,13 @@ func (t *Trie) PrefixSearch(key string) []string {
 				break
 			}
 
-			back := int(cur.depth + 1 - stack[last-1].depth)
+			back := int(cur.depth + int32(utf8.RuneLen(cur.r)) - stack[last-1].depth)
 			buf.Truncate(buf.Len() - back)
 			continue
 		}
 
 		for _, child := range cur.node.children {
-			stack = append(stack, trieFrame{child.val, cur.depth + 1, child.node})
+			stack = append(stack, trieFrame{child.val, cur.depth + int32(utf8.RuneLen(cur.r)), child.node})
 		}
 	}
 
@@ -292,13 +292,13 @@ func (t *Trie) FuzzySearch(key string) []string {
 					break
 				}
 
-				back := int(cur.depth + 1 - stack[last-1].depth)
+				back := int(cur.depth + int32(utf8.RuneLen(cur.r)) - stack[last-1].depth)
 				buf.Truncate(buf.Len() - back)
 				continue
 			}
 
 			for _, child := range cur.node.children {
-				stack = append(stack, trieFrame{child.val, cur.depth + 1, child.node})
+				stack = append(stack, trieFrame{child.val, cur.depth + int32(utf8.RuneLen(cur.r)), child.node})
 			}
 		}
 
@@ -404,7 +404,7 @@ func decodeRune(s string, i int) (rune, int) {
 
 type trieFrame struct {
 	r     rune
-	depth int32
+	depth int32 // bytes written for the path above this frame
 	node  *trieNode
 }
 
